@@ -377,13 +377,29 @@ static int skip_to (char *token, char *atoken)
  *             If it contains dot or dot-dot in the path, it is normalized using current_file as the base.
  * @return File descriptor, or -1 on failure.
  */
+/* A normalised include path must not keep a ".." component (e.g. #include "x/.."
+ * or "/.//." slip through inc_lexically_normal): such a path is never opened. */
+static int has_dotdot_component (const char *path) {
+  const char *p = path;
+
+  while (p)
+    {
+      if (p[0] == '.' && p[1] == '.' && (p[2] == '/' || p[2] == '\0'))
+        return 1;
+      p = strchr (p, '/');
+      if (p)
+        p++;
+    }
+  return 0;
+}
+
 static int inc_open (char *buf, const char *name) {
 
   int i, fd;
   char *p;
 
   inc_lexically_normal (current_file, name, buf);
-  if ((fd = FILE_OPEN (buf, O_RDONLY)) != -1)
+  if (!has_dotdot_component (buf) && (fd = FILE_OPEN (buf, O_RDONLY)) != -1)
     {
       opt_trace (TT_COMPILE|3, "opened (fd %d): \"%s\"", fd, buf);
       return fd;
